@@ -1012,6 +1012,13 @@ def scenario_exhaust_then_bridge(draw, exact_kw=None):
 
     probes = [exhaust(x, 0), exhaust(y, 0)] + ([exhaust(draw(st.sampled_from((x, y))), 0)] if draw(st.booleans()) else [])
     out += probes
+    if draw(st.booleans()):
+        # a query spanning both groups that leaves no helper constraint behind: a composite answers it from a combination of the
+        # two children, which it may keep -- and must not keep sharing with a branch once either side changes
+        out.append(draw(st.sampled_from(({"op": "batch", "s": 0, "es": [x, y], "n": draw(st.sampled_from((1, 3))), "extra": []},
+                                         {"op": "eval", "s": 0, "e": ("bvadd", x, y), "n": 1, "extra": []},
+                                         {"op": "solution", "s": 0, "e": ("bvxor", x, y), "v": draw(st.sampled_from(CONSTS)), "v_as_bvv": False, "extra": []},
+                                         {"op": "sat", "s": 0, "extra": [("ule", x, y)]}))))
     branched = draw(st.integers(0, 2)) == 0
     if branched:
         out.append({"op": "branch", "s": 0})
@@ -1026,14 +1033,14 @@ def scenario_exhaust_then_bridge(draw, exact_kw=None):
         bridge = ("ne", ("bvxor", x, y), _c(draw(st.sampled_from(CONSTS))))
     else:
         bridge = draw(constraints((x[1], y[1])))
-    out.append({"op": "add", "s": 0, "cs": [bridge], "as_list": draw(st.booleans())})
+    side = draw(st.sampled_from((0, 0, -1))) if branched else 0
+    out.append({"op": "add", "s": side, "cs": [bridge], "as_list": draw(st.booleans())})
     if draw(st.integers(0, 3)) == 0:
-        out.append({"op": draw(st.sampled_from(("simplify", "split", "downsize"))), "s": 0})
-    for t in ([0, -1] if branched else [0]):
-        for q in probes:
-            out.append({**q, "s": t})
-        out.append({"op": "sat", "s": t, "extra": []})
-        out.append({"op": "batch", "s": t, "es": [x, y], "n": 300, "extra": []})
+        out.append({"op": draw(st.sampled_from(("simplify", "split", "downsize"))), "s": side})
+    for t in (draw(st.permutations([0, -1])) if branched else [0]):
+        # in a generated order: a single-variable query can repair (or purge) what a spanning query would have shown
+        final = [{**q, "s": t} for q in probes] + [{"op": "sat", "s": t, "extra": []}, {"op": "batch", "s": t, "es": [x, y], "n": 300, "extra": []}]
+        out += list(draw(st.permutations(final)))
     if exact_kw is not None:
         out = [({**s_, "exact": draw(st.sampled_from(exact_kw))} if s_["op"] not in ("add", "branch", "simplify", "split", "downsize") else s_) for s_ in out]
     return out
@@ -1174,6 +1181,52 @@ def scenario_helper_children(draw, exact_kw=None):
         out.append({"op": "eval", "s": u, "e": one, "n": 300, "extra": []})
     if exact_kw is not None:
         out = [({**s_, "exact": draw(st.sampled_from(exact_kw))} if s_["op"] in ("sat", "eval", "batch", "min", "max") else s_) for s_ in out]
+    return out
+
+
+@st.composite
+def scenario_branch_isolation(draw, exact_kw=None):
+    """What branches share until one side changes: the backend solver object (created by the first query), cached models and
+    exhaustion marks, a composite's children and its cached combinations of children (created by a query spanning two groups).
+    Parent: constraints on two groups, single-group and spanning queries; branch (and branch again, before or after an add that
+    nobody has queried yet); one side gets narrowing / bridging / contradicting constraints; then every side is asked the same
+    queries in a generated order."""
+    names = tuple(draw(st.permutations(BVVARS))[:2])
+    x, y = _v(names[0]), _v(names[1])
+    kc = lambda: _c(draw(st.sampled_from(CONSTS)))  # noqa: E731
+    cmpc = lambda v: (draw(st.sampled_from(("ule", "ult", "uge", "ugt", "ne", "sgt", "slt"))), v, kc())  # noqa: E731
+    out = []
+    for v in (x, y):
+        for _ in range(draw(st.integers(0, 1))):
+            out.append({"op": "add", "s": 0, "cs": [cmpc(v)], "as_list": False})
+    queries = [{"op": "eval", "e": x, "n": draw(st.sampled_from((1, 2, 300))), "extra": []}, {"op": "batch", "es": [x, y], "n": draw(st.sampled_from((1, 3, 300))), "extra": []},
+               {"op": "solution", "e": draw(st.sampled_from((x, ("bvadd", x, y)))), "v": draw(st.sampled_from(CONSTS)), "v_as_bvv": False, "extra": []},
+               {"op": "sat", "extra": []}, {"op": "sat", "extra": [draw(st.sampled_from((("ule", x, y), ("eq", x, kc()), ("ugt", y, kc()))))]},
+               {"op": draw(st.sampled_from(("min", "max"))), "e": draw(st.sampled_from((x, y, ("bvadd", x, y)))), "signed": draw(st.booleans()), "extra": []},
+               {"op": "eval", "e": ("bvadd", x, y), "n": draw(st.sampled_from((1, 300))), "extra": []}]
+    for q in draw(st.lists(st.sampled_from(queries), min_size=0, max_size=3)):
+        out.append({**q, "s": 0})
+    out.append({"op": "branch", "s": 0})
+    n_live = 2
+    changed = draw(st.sampled_from((0, 1)))
+    change = [draw(st.sampled_from((cmpc(x), cmpc(y), (draw(st.sampled_from(ir.BV_CMP)), x, y), ("eq", x, y), ("ule", ("bvadd", x, y), kc()), ("eq", x, kc()),
+                                    ("and", ("ugt", x, _c(9)), ("ult", x, _c(3))))))
+              for _ in range(draw(st.integers(1, 2)))]
+    for i, c in enumerate(change):
+        out.append({"op": "add", "s": changed, "cs": [c], "as_list": draw(st.booleans())})
+        if i == 0 and draw(st.integers(0, 2)) == 0:
+            # branch the changed side again while its last add is still pending, or the other side
+            out.append({"op": "branch", "s": draw(st.sampled_from((changed, 1 - changed)))})
+            n_live += 1
+        elif draw(st.integers(0, 3)) == 0:
+            out.append({**draw(st.sampled_from(queries)), "s": changed})
+    if draw(st.integers(0, 4)) == 0:
+        out.append({"op": draw(st.sampled_from(("simplify", "downsize"))), "s": draw(st.integers(0, n_live - 1))})
+    for t in draw(st.permutations(list(range(n_live)))):
+        for q in draw(st.permutations(queries))[: draw(st.integers(2, 5))]:
+            out.append({**q, "s": t})
+    if exact_kw is not None:
+        out = [({**s_, "exact": draw(st.sampled_from(exact_kw))} if s_["op"] in ("sat", "eval", "batch", "min", "max", "solution") else s_) for s_ in out]
     return out
 
 
